@@ -411,4 +411,5 @@ def canonical_keys_rule(ctx, rule: str) -> None:
         ctx.check(rule, empty_only, f"glob expansion L{y.lineno}: the raw configured string is used as key only when no file matched",
                   "config._iter_glob_expanded_file_patterns: an existing file can be keyed by its raw configured spelling (e.g. './README.md'): entries for one file are not merged and the key does not equal the path git reports",
                   f"`{unparse(y)}` reached when {r.to_dnf()}", loc=ge.loc(y), witness={"entries": ["docs/*.md", "./docs/install.md"]})
-    ctx.floor(rule, "canonical glob-match yields", n_glob, 1)
+    if n_glob == 0 and not any(f.rule.endswith("/" + rule) for f in ctx.findings):
+        ctx.floor(rule, "canonical glob-match yields", n_glob, 1)
